@@ -162,6 +162,17 @@ def overlapping_profile_cases(rng, quick):
                     cases.append(("overlapping_profile", {"kind": kind, "known": known, "gene_region": (known[0][0], max(k[1] for k in known)),
                                                           "read": read, "mapped": mapped, "polya": polya, "polyt": polyt,
                                                           "d": d, "abs_d": rng.choice([0, 1, 2])}))
+    # audit-2 G6: wider pools - 1-4 known features, 1-4 read features, delta 0..3, polyA / polyT anywhere (0, beyond the read,
+    # inside a gap), gene region wider than the hull of the known features
+    for op, kw in wide_read_profile_cases(rng, 1500 if quick else 15000):
+        kind = "intron" if op == "intron_profile" else "exon"
+        read = kw["blocks"]
+        d = kw["d"]
+        mapped = (read[0][0] - rng.randint(0, 2), read[-1][1] + rng.randint(0, 2)) if kind == "intron" \
+            else (read[0][1] + d, read[-1][0] - d)
+        cases.append(("overlapping_profile", {"kind": kind, "known": kw["known"], "gene_region": kw["gene_region"], "read": read,
+                                              "mapped": mapped, "polya": kw["polya"], "polyt": kw["polyt"], "d": d,
+                                              "abs_d": kw.get("abs_d", 0)}))
     # genome-scale random
     for _ in range(100 if quick else 1000):
         known = sorted(set(rand_sd_list(rng, rng.randint(1, 12), 10 ** 6) + rand_sd_list(rng, rng.randint(0, 5), 10 ** 6)))
@@ -175,6 +186,51 @@ def overlapping_profile_cases(rng, quick):
                                               "mapped": (read[0][0], read[-1][1]), "polya": rng.choice([-1, read[-1][1]]),
                                               "polyt": rng.choice([-1, read[0][0]]), "d": d, "abs_d": 20}))
     return cases
+
+
+_WIDE = {}
+
+
+def wide_read_profile_cases(rng, n):
+    """(exon_profile | intron_profile, kw) in the format of gen/c13_features.profile_cases, outside its pools (audit-2 G6):
+    1-4 known features over 1..9, 1-4 gapped read blocks over 1..14, delta 0..3, abs_d 0..5, polyA / polyT anywhere in 0..15,
+    gene region = hull of the known features or wider"""
+    U = 9
+    if "ivs" not in _WIDE:
+        _WIDE["ivs"] = [(a, b) for a in range(1, U + 1) for b in range(a, U + 1)]
+        _WIDE["blocks"] = [l for l in all_sd_lists(U, 3) if l and all(l[i][1] + 1 < l[i + 1][0] for i in range(len(l) - 1))]
+    ivs, blocks_all = _WIDE["ivs"], _WIDE["blocks"]
+    cases = []
+    while len(cases) < n:
+        known = sorted(rng.sample(ivs, rng.choice([1, 2, 3, 3, 4])))
+        if rng.random() < 0.3:
+            pts = sorted(rng.sample(range(1, U + 6), 8))
+            blocks = [(pts[0], pts[1]), (pts[2], pts[3]), (pts[4], pts[5]), (pts[6], pts[7])]
+            if not all(blocks[i][1] + 1 < blocks[i + 1][0] for i in range(3)):
+                continue
+        else:
+            blocks = rng.choice(blocks_all)
+        d = rng.choice([0, 1, 2, 3])
+        gr = (min(known[0][0], 1) - rng.choice([0, 0, 3]), max(k[1] for k in known) + rng.choice([0, 0, 5]))
+        pa = rng.choice([-1, -1, rng.randint(0, U + 6)])
+        pt = rng.choice([-1, -1, rng.randint(0, U + 6)])
+        op = rng.choice(["exon_profile", "intron_profile"])
+        kw = {"known": known, "gene_region": gr, "d": d, "blocks": blocks, "polya": pa, "polyt": pt}
+        if op == "intron_profile":
+            kw["abs_d"] = rng.choice([0, 1, 2, 3, 5])
+        cases.append((op, kw))
+    return cases
+
+
+def _split_exons_py(exons):
+    """atoms of an exon arrangement (independent recomputation: maximal runs of positions with the same covering exon set,
+    cut at every exon start and after every exon end)"""
+    cuts = sorted({e[0] for e in exons} | {e[1] + 1 for e in exons})
+    res = []
+    for a, b in zip(cuts, cuts[1:]):
+        if any(e[0] <= a and b - 1 <= e[1] for e in exons):
+            res.append((a, b - 1))
+    return res
 
 
 def nonoverlapping_profile_cases(rng, quick):
@@ -193,4 +249,38 @@ def nonoverlapping_profile_cases(rng, quick):
         read = perturb(rng, known)
         cases.append(("nonoverlapping_profile", {"known": known, "read": read, "polya": rng.choice([-1, read[-1][1]]),
                                                  "polyt": rng.choice([-1, read[0][0]]), "d": rng.choice([0, 6]), "min_ov": 5}))
+    # audit-2 G3: pipeline-like - split exons of a random annotation (touching blocks, 3-bp exons, 1-bp introns), reads from an
+    # isoform with jitter / extension beyond the gene / an extra block far upstream, min_ov 5, delta of the data types, polyA and
+    # polyT anywhere around the gene
+    n2 = 0
+    while n2 < (400 if quick else 6000):
+        base = rng.randint(1, 10 ** 6)
+        p = base
+        ex0 = []
+        for _ in range(rng.randint(1, 8)):
+            ln = rng.choice([3, 8, 30, 120, 400])
+            ex0.append((p, p + ln - 1))
+            p += ln + rng.choice([1, 2, 7, 60, 900])
+        isos = [ex0]
+        for _ in range(rng.randint(0, 3)):
+            e2 = [(a + rng.choice([0, 0, 2, -3, 10]), b + rng.choice([0, 0, -2, 4, 15])) for a, b in ex0 if rng.random() > 0.2]
+            e2 = [e for e in e2 if e[0] <= e[1]]
+            if e2 and all(e2[i][1] < e2[i + 1][0] for i in range(len(e2) - 1)):
+                isos.append(e2)
+        known = _split_exons_py(sorted({e for t in isos for e in t}))
+        src = rng.choice(isos)
+        read = [(a + rng.choice([0, 0, 1, -2, 5, -7]), b + rng.choice([0, 0, -1, 2, -5, 7])) for a, b in src if rng.random() > 0.15] or [src[0]]
+        if rng.random() < 0.3:
+            read = [(read[0][0] - rng.choice([10, 500]), read[0][1])] + read[1:]
+        if rng.random() < 0.3:
+            read = read[:-1] + [(read[-1][0], read[-1][1] + rng.choice([10, 500]))]
+        if rng.random() < 0.1:
+            read = [(base - 2000, base - 1500)] + read
+        read = [e for e in read if e[0] <= e[1]]
+        if not read or not all(read[i][1] + 1 < read[i + 1][0] for i in range(len(read) - 1)) or read[0][0] < 1:
+            continue
+        n2 += 1
+        cases.append(("nonoverlapping_profile", {"known": known, "read": read, "d": rng.choice([0, 4, 6, 12]), "min_ov": 5,
+                                                 "polya": rng.choice([-1, read[-1][1], read[-1][1], rng.randint(max(1, base - 100), p + 100)]),
+                                                 "polyt": rng.choice([-1, read[0][0], rng.randint(max(1, base - 100), p + 100)])}))
     return cases
